@@ -146,6 +146,13 @@ def closed_slice(R: Draw, g: DocGen) -> dict:
     return {"c": normalize_children(out), "os": 0, "oe": 0}
 
 
+def _marked_nodes(rs: RefSchema, doc: dict) -> list[tuple[int, int, list[str]]]:
+    """(absolute start, size, [mark type names]) of every node that carries at least one mark."""
+    from ..ref import resolve as RR
+
+    return [(s_, k.size, [m[0] for m in k.p["m"]]) for k, s_, _par, _i, _d in RR.all_nodes(RR.N(doc, rs)) if k.p["m"]]
+
+
 def random_step(R: Draw, g: DocGen, doc: dict, n: int) -> dict:
     """All fields random but inside the document; ordering violations only when asked via `wild`."""
     rs: RefSchema = g.rs
@@ -179,12 +186,25 @@ def random_step(R: Draw, g: DocGen, doc: dict, n: int) -> dict:
         size = S.slice_size(sl, rs.leaf_types)
         ins = R.int(0, size) if not wild else R.int(0, size + 2)
         return {"k": k, "from": a, "to": b, "gapFrom": ga, "gapTo": gb, "slice": sl, "insert": ins, "structure": R.bool(0.3)}
-    if k in ("addMark", "removeMark"):
-        a = pos()
-        b = pos() if wild else R.int(a, min(n, a + R.int(0, 10)))
-        return {"k": k, "from": a, "to": b, "mark": g.mark(R, R.choice(rs.mark_names))}
-    if k in ("addNodeMark", "removeNodeMark"):
-        return {"k": k, "pos": pos(), "mark": g.mark(R, R.choice(rs.mark_names))}
+    if k in ("addMark", "removeMark", "addNodeMark", "removeNodeMark"):
+        mname = R.choice(rs.mark_names)
+        marked = _marked_nodes(rs, doc)
+        if marked and R.bool(0.6):
+            # aim at a node that carries marks, with a mark that interacts with them (same type / exclusion either way)
+            start, size, present = R.choice(marked)
+            inter = [m for m in rs.mark_names if m in present or any(rs.excludes(m, x) or rs.excludes(x, m) for x in present)]
+            if inter and R.bool(0.8):
+                mname = R.choice(inter)
+            if k in ("addNodeMark", "removeNodeMark"):
+                return {"k": k, "pos": start, "mark": g.mark(R, mname)}
+            a = R.int(max(0, start - 2), start + size - 1)
+            b = R.int(a, min(n, start + size + 2))
+            return {"k": k, "from": a, "to": b, "mark": g.mark(R, mname)}
+        if k in ("addMark", "removeMark"):
+            a = pos()
+            b = pos() if wild else R.int(a, min(n, a + R.int(0, 10)))
+            return {"k": k, "from": a, "to": b, "mark": g.mark(R, mname)}
+        return {"k": k, "pos": pos(), "mark": g.mark(R, mname)}
     if k == "attr":
         names = sorted({a for s in rs.nodes.values() for a in (s.get("attrs") or {})}) + ["undeclared"]
         return {"k": k, "pos": pos(), "attr": R.choice(names), "value": copy.deepcopy(R.choice(_JSON_VALUES))}
